@@ -94,13 +94,15 @@ pub mod shims {
     /// SHIM (R4): the fn-pointer alias FormatFunction
     #[derive(Clone, Copy)]
     pub struct VFormatFn { _o: () }
-    pub struct DeferredNow { _o: () }
+    //@ include prelude/dnow_shim.rs
     /// oracle: the bytes a format function produces for a record (the format functions are outside the verifier, C20)
     pub uninterp spec fn fmt_out(f: VFormatFn, record: &log::Record) -> Seq<u8>;
     impl VFormatFn {
         #[verifier::external_body]
         pub fn call(&self, w: &mut Vec<u8>, now: &mut DeferredNow, record: &log::Record) -> (r: Result<(), std::io::Error>)
-            ensures r is Ok ==> final(w)@ == old(w)@ + fmt_out(*self, record),
+            requires
+                now_ok(old(now).origin()), //@label FormatFunction::call.same_now C20
+            ensures r is Ok ==> final(w)@ == old(w)@ + fmt_out(*self, record), final(now).origin() == old(now).origin(),
         { unimplemented!() }
     }
     pub enum ErrorCode { Write, Format }
@@ -215,6 +217,8 @@ pub mod state_handle {
     //@   rule R3 *
     //@   req[AsyncHandle::write.pre.ending] self.ending().len() > 0 && self.ending().last() == 10u8
     //@   req[AsyncHandle::write.pre.perm] forall|m: Seq<u8>| #[trigger] send_ok(m) <==> m == fmt_out(self.fmt(), record) + self.ending()
+    //@   req[AsyncHandle::write.pre.same_now] forall|o: int| #[trigger] now_ok(o) <==> o == old(now).origin()
+    //@   ens[AsyncHandle::write.post.same_now] final(now).origin() == old(now).origin()
     //@   canary
     //@ fn src/writers/file_log_writer/state_handle.rs impl AsyncHandle / fn pop_buffer
     //@   ret r
